@@ -192,4 +192,66 @@ example : (xPartialTransaction [⟨7, 3⟩] [] [.base (.withExcess 5), .base (.o
     (xPartialTransaction [⟨7, 3⟩] [] [.base (.withExcess 5), .base (.output ⟨4, 11⟩), .base (.withExcess 2)]).2.2 = .ok 18 := by
   refine ⟨by decide, by decide⟩
 
+/-! ## the offset the initial transaction carries -/
+
+/-- **the final offset is assigned, not added**: `transaction_with_kernel` gives the same transaction
+— body, fee, excess and OFFSET — whatever offsets the transactions installed by `initial_tx` carry
+(a partial transaction with zero offset or a finished `build::transaction` result with a random
+one); only the steps matter. -/
+theorem final_offset_ignores_initial_offset (elems elems' : List XElem) (fee excess : Nat)
+    (h : elems.map (·.step) = elems'.map (·.step)) :
+    xTransactionWithKernelO elems fee excess = xTransactionWithKernelO elems' fee excess := by
+  unfold xTransactionWithKernelO; rw [h]
+
+/-- … in particular with every initial offset replaced by zero -/
+theorem final_offset_as_with_zero_initial_offset (elems : List XElem) (fee excess : Nat) :
+    xTransactionWithKernelO elems fee excess =
+      xTransactionWithKernelO (elems.map fun e => { e with txOffset := 0 }) fee excess :=
+  final_offset_ignores_initial_offset _ _ fee excess (by simp [Function.comp_def])
+
+/-- **the two-party shape validates whatever offset the first party's transaction carries**:
+`exchange_balances` for an initial transaction with any offset `f0`. -/
+theorem exchange_balances_any_initial_offset (pre post : List Step) (i0 o0 : List Opening) (f0 fee excess : Nat) (tx : Tx)
+    (hpre : inputsOf pre = [] ∧ outputsOf pre = [])
+    (h : xTransactionWithKernelO
+      (pre.map (fun s => ⟨.base s, 0⟩) ++ ⟨.initialTx i0 o0, f0⟩ :: post.map (fun s => ⟨.base s, 0⟩)) fee excess = some tx)
+    (hi : (i0 ++ inputsOf post).Nodup) (ho : (o0 ++ outputsOf post).Nodup)
+    (hv : sumValues (i0 ++ inputsOf post) = sumValues (o0 ++ outputsOf post) + fee)
+    (hx : rawSum ((excessesOf (pre ++ post)).filterMap bfSecretKey) [] = rawSum (blinds o0) (blinds i0)) :
+    tx.ins = i0 ++ inputsOf post ∧ tx.outs = o0 ++ outputsOf post ∧ txBalances tx = true := by
+  apply exchange_balances pre post i0 o0 fee excess tx hpre _ hi ho hv hx
+  unfold xTransactionWithKernelO at h
+  simpa [Function.comp_def] using h
+
+/-- what `partial_transaction` hands back: the offset of the LAST `initial_tx`, the base's if there is none -/
+theorem partial_offset (start : Nat) (pre post : List XElem) (i o : List Opening) (f : Nat)
+    (hpost : ∀ e ∈ post, ∃ s, e.step = .base s) :
+    foldTxOffset start (pre ++ ⟨.initialTx i o, f⟩ :: post) = f ∧
+    (∀ (l : List XElem), (∀ e ∈ l, ∃ s, e.step = .base s) → foldTxOffset start l = start) := by
+  have hbase : ∀ (l : List XElem) (st : Nat), (∀ e ∈ l, ∃ s, e.step = .base s) → foldTxOffset st l = st := by
+    intro l
+    induction l with
+    | nil => intro st _; rfl
+    | cons e r ih =>
+      intro st h
+      obtain ⟨s, hs⟩ := h e mem_cons_self
+      obtain ⟨stp, fo⟩ := e
+      simp only at hs
+      subst hs
+      simp only [foldTxOffset]
+      exact ih st (fun x hx => h x (mem_cons_of_mem _ hx))
+  refine ⟨?_, fun l hl => hbase l start hl⟩
+  induction pre generalizing start with
+  | nil => simp only [nil_append, foldTxOffset]; exact hbase post f hpost
+  | cons e r ih =>
+    obtain ⟨stp, fo⟩ := e
+    cases stp with
+    | base s => simp only [cons_append, foldTxOffset]; exact ih start
+    | initialTx a b => simp only [cons_append, foldTxOffset]; exact ih fo
+
+/-- non-vacuity: the same steps with initial offsets 0 and 77 give the same finished transaction -/
+example : xTransactionWithKernelO [⟨.initialTx [⟨7, 3⟩] [], 77⟩, ⟨.base (.output ⟨5, 11⟩), 0⟩, ⟨.base (.withExcess (N - 3)), 0⟩] 2 4 =
+    xTransactionWithKernelO [⟨.initialTx [⟨7, 3⟩] [], 0⟩, ⟨.base (.output ⟨5, 11⟩), 0⟩, ⟨.base (.withExcess (N - 3)), 0⟩] 2 4 := by
+  decide
+
 end GV.Props.C20
